@@ -271,7 +271,7 @@ Definition cam_okb (d b n : Q) : bool := qlt0 d && qle0 b && qle0 n && qltb (b -
 Definition prim2_wfb (p : Prim2 QOps) : bool :=
   match p with
   | PFlatFlankCam d b n => cam_okb d b n
-  | PThreeArcCam d b n f => cam_okb d b n && qltb (b + d + n) (2 * f)
+  | PThreeArcCam d b n _ => cam_okb d b n
   | PFlange1 d c s => cam_okb d c s
   | PArcSpiral _ _ _ _ d => qle0 d
   end.
@@ -294,8 +294,7 @@ Lemma prim2_wfb_sound p : prim2_wfb p = true -> prim2_wf (map_prim2 (A := QOps) 
 Proof.
   destruct p; cbn [prim2_wfb map_prim2 prim2_wf]; intros H.
   - apply cam_okb_sound, H.
-  - apply andb_true_iff in H. destruct H as [H1 H2]. split; [apply cam_okb_sound, H1|].
-    apply qltb_sound in H2. rewrite Q2R_mult, !Q2R_plus in H2. replace (Q2R 2) with 2 in H2 by (unfold Q2R; cbn; lra). lra.
+  - apply cam_okb_sound, H.
   - apply cam_okb_sound, H.
   - apply qle0_sound, H.
 Qed.
